@@ -42,6 +42,7 @@ struct Action {
     bool with_slot = false;                     // bind a cancellation slot to the op
     bool expect_reject = false;                 // request that must be rejected locally (C15/C16)
     int expect_ec = 0;
+    bool chain = false;                         // the next script action follows in the same step (no handler runs in between)
 };
 
 struct OpRec {
